@@ -134,7 +134,7 @@ pub fn gen_build_case(rng: &mut Rng, tier: Tier) -> BuiltCase {
   }
   // WebAssembly modules: a valid binary whose imports name a module of the world (the imports of a
   // wasm module are its dependencies), or bytes the wasm parser rejects
-  if rng.chance(10) {
+  if rng.chance(14) {
     let plain: Vec<String> = world.entries.keys().filter(|s| !s.starts_with("npm:") && !s.starts_with("jsr:") && attr_class_target(s, true) == 0 && !s.ends_with(".json")).cloned().collect();
     let k = world.entries.len();
     let wasm_spec = format!("{}w{}.wasm", if rng.chance(50) { "file:///p/" } else { "https://h.test/" }, k);
@@ -179,6 +179,52 @@ pub fn gen_build_case(rng: &mut Rng, tier: Tier) -> BuiltCase {
       let t = format!("file:///p/spx{}.ts", k);
       world.entries.insert(t.clone(), Entry::Module { src: ModSrc::default(), raw: None, headers: None });
       src.imports.push(Imp { form: Form::SourcePhase, text: t });
+    }
+    // a WebAssembly file imported BOTH at source phase and as an ordinary module, statically or dynamically,
+    // from one module (one dependency with two imports) or from two (which request comes first matters to
+    // the builder: asset load first, module load later, or a dynamic branch queued by either)
+    if rng.chance(60) {
+      let t = format!("file:///p/wmx{}.wasm", k);
+      world.entries.insert(t.clone(), Entry::Module { src: ModSrc::default(), raw: Some(vec![0x00, 0x61, 0x73, 0x6d, 0x01, 0x00, 0x00, 0x00]), headers: None });
+      let sp_form = if rng.chance(50) { Form::SourcePhase } else { Form::DynSourcePhase };
+      let reg_form = rng.pick(&[Form::Static, Form::Dynamic, Form::Dynamic, Form::Named]).clone();
+      let other = format!("file:///p/wasmother{}.ts", k);
+      match rng.below(4) {
+        0 => {
+          // both imports in one module: one dependency entry
+          if rng.chance(50) {
+            src.imports.push(Imp { form: sp_form, text: t.clone() });
+            src.imports.push(Imp { form: reg_form, text: t.clone() });
+          } else {
+            src.imports.push(Imp { form: reg_form, text: t.clone() });
+            src.imports.push(Imp { form: sp_form, text: t.clone() });
+          }
+        }
+        1 => {
+          // source phase here, ordinary import in a module imported later
+          src.imports.push(Imp { form: sp_form, text: t.clone() });
+          let mut o = ModSrc::default();
+          o.imports.push(Imp { form: reg_form, text: t.clone() });
+          world.entries.insert(other.clone(), Entry::Module { src: o, raw: None, headers: None });
+          src.imports.push(Imp { form: if rng.chance(50) { Form::Static } else { Form::Dynamic }, text: other.clone() });
+        }
+        2 => {
+          // ordinary import here, source phase in a module imported later
+          src.imports.push(Imp { form: reg_form, text: t.clone() });
+          let mut o = ModSrc::default();
+          o.imports.push(Imp { form: sp_form, text: t.clone() });
+          world.entries.insert(other.clone(), Entry::Module { src: o, raw: None, headers: None });
+          src.imports.push(Imp { form: if rng.chance(50) { Form::Static } else { Form::Dynamic }, text: other.clone() });
+        }
+        _ => {
+          // the other module first
+          let mut o = ModSrc::default();
+          o.imports.push(Imp { form: sp_form, text: t.clone() });
+          world.entries.insert(other.clone(), Entry::Module { src: o, raw: None, headers: None });
+          src.imports.push(Imp { form: if rng.chance(50) { Form::Static } else { Form::Dynamic }, text: other.clone() });
+          src.imports.push(Imp { form: reg_form, text: t.clone() });
+        }
+      }
     }
     world.entries.insert(user.clone(), Entry::Module { src, raw: None, headers: None });
     roots.push(if rng.chance(25) { wasm_spec } else { user });
